@@ -7,6 +7,7 @@ import os, sys, json, binascii
 import vlib
 sys.path.insert(0, os.path.join(vlib.VERIF, 'tools'))
 import gen_c05_cases as G
+import tr_c05_abi
 
 LEVEL = 'proof'
 ENGINES_QUICK = ['interp', 'gen0', 'gen1', 'gen2', 'gen3']
@@ -266,6 +267,13 @@ def coqchk(chk):
 
 def run(chk):
     quick = chk.tier == 'quick'
+    # conversion tables, register tables, call-used test, ALLOCA templates, pattern table and stub bytes are
+    # regenerated from the checked tree (coq/gen/C05Abi.v) before the proofs are re-checked
+    tr_c05_abi.generate()
+    chk.cov['trusted_base'] += ['translator tools/tr_c05_abi.py (gcc -E -P -U_WIN32 + regular expressions over get_ext_code, '
+                                'get_int/fp_arg_reg, target_call_used_hard_reg_p, patterns[], out_insn, the ext switches of mir.c, the '
+                                'conversion switches of mir-interp.c, the byte arrays of mir-x86_64.c); unparsable parts become '
+                                'XUNKNOWN/Cunknown/empty and fail the theorems']
     r = chk.prove()
     if not quick and r['ok'] and not coqchk(chk):
         r = dict(r, ok=False, log=r['log'] + '\ncoqchk rejected the compiled proofs')
